@@ -296,7 +296,10 @@ type BuySpec struct {
 	BidAdj  int64  // bid amount = ask + BidAdj
 	BidDen  string // "" => ask denom
 	DAR     bool   // disable auto retire
-	MaxFee  *int64 // nil => absent
+	MaxFee  *int64 // nil => absent (unless FeeMode is set)
+	// FeeMode computes the max fee from the pre-state: "floor" = the buyer fee
+	// rounded down, "floor-1", "zero", "large", "other-denom"; "" => use MaxFee.
+	FeeMode string
 }
 
 // Buy builds a BuyDirect for one or more order specs.
@@ -340,6 +343,34 @@ func Buy(buyer sdk.AccAddress, tag string, specs ...BuySpec) E {
 			if sp.MaxFee != nil {
 				bo.MaxFeeAmount = &sdk.Coin{Denom: den, Amount: sdk.NewInt(*sp.MaxFee)}
 			}
+			if sp.FeeMode != "" {
+				rb := ref.Zero()
+				if pre.FeeParams != nil && pre.FeeParams.BuyerPercentageFee != "" {
+					if d, err := ref.Parse(pre.FeeParams.BuyerPercentageFee); err == nil {
+						rb = d.R
+					}
+				}
+				q, err := ref.Parse(qty)
+				fl := new(big.Int)
+				if err == nil {
+					fl = ref.TruncInt(ref.Mul(ref.Mul(q.R, ref.RatOfInt(ask)), rb))
+				}
+				switch sp.FeeMode {
+				case "floor":
+					bo.MaxFeeAmount = &sdk.Coin{Denom: den, Amount: sdk.NewIntFromBigInt(fl)}
+				case "floor-1":
+					if fl.Sign() <= 0 {
+						return nil // no smaller non-negative fee exists
+					}
+					bo.MaxFeeAmount = &sdk.Coin{Denom: den, Amount: sdk.NewIntFromBigInt(new(big.Int).Sub(fl, big.NewInt(1)))}
+				case "zero":
+					bo.MaxFeeAmount = &sdk.Coin{Denom: den, Amount: sdk.NewInt(0)}
+				case "large":
+					bo.MaxFeeAmount = &sdk.Coin{Denom: den, Amount: sdk.NewInt(1_000_000_000)}
+				case "other-denom":
+					bo.MaxFeeAmount = &sdk.Coin{Denom: "stake", Amount: sdk.NewInt(1_000_000_000)}
+				}
+			}
 			orders = append(orders, bo)
 			lbl += fmt.Sprintf("id=%d,q=%s,bid=%s;", id, qty, bid)
 		}
@@ -363,4 +394,32 @@ func GovSendFromPool(signer, to sdk.AccAddress, coins ...sdk.Coin) *explore.Acti
 
 func BurnRegen(burner sdk.AccAddress, amt string) *explore.Action {
 	return Msg(fmt.Sprintf("BurnRegen(%s,%s)", n(burner), amt), &basetypes.MsgBurnRegen{Burner: burner.String(), Amount: amt, Reason: "r"})
+}
+
+type buyOrder struct {
+	id  uint64
+	qty string
+	bid sdk.Coin
+	dar bool
+}
+
+// mkBuy is a BuyDirect with explicit order ids (for seeds).
+func mkBuy(buyer sdk.AccAddress, os ...buyOrder) *explore.Action {
+	var orders []*markettypes.MsgBuyDirect_Order
+	for _, o := range os {
+		bid := o.bid
+		bo := &markettypes.MsgBuyDirect_Order{SellOrderId: o.id, Quantity: o.qty, BidPrice: &bid, DisableAutoRetire: o.dar,
+			MaxFeeAmount: &sdk.Coin{Denom: bid.Denom, Amount: sdk.NewInt(1_000_000_000)}}
+		if !o.dar {
+			bo.RetirementJurisdiction = "US-WA"
+		}
+		orders = append(orders, bo)
+	}
+	return Msg(fmt.Sprintf("seed:buy(%s,%d orders)", n(buyer), len(os)), &markettypes.MsgBuyDirect{Buyer: buyer.String(), Orders: orders})
+}
+
+// mkUpdate is an UpdateSellOrders with an explicit id (for seeds).
+func mkUpdate(seller sdk.AccAddress, id uint64, qty string, ask sdk.Coin, dar bool) *explore.Action {
+	return Msg(fmt.Sprintf("seed:update(%d,q=%s,ask=%s)", id, qty, shortCoin(ask)), &markettypes.MsgUpdateSellOrders{Seller: seller.String(),
+		Updates: []*markettypes.MsgUpdateSellOrders_Update{{SellOrderId: id, NewQuantity: qty, NewAskPrice: &ask, DisableAutoRetire: dar}}})
 }
